@@ -25,10 +25,14 @@ import (
 	sa "k8s.io/apiserver/pkg/authentication/serviceaccount"
 	"k8s.io/client-go/kubernetes/fake"
 
+	networking "istio.io/api/networking/v1alpha3"
 	"istio.io/istio/pilot/pkg/features"
 	pxds "istio.io/istio/pilot/pkg/xds"
 	v3 "istio.io/istio/pilot/pkg/xds/v3"
 	txds "istio.io/istio/pilot/test/xds"
+	"istio.io/istio/pkg/config"
+	"istio.io/istio/pkg/config/constants"
+	"istio.io/istio/pkg/config/schema/gvk"
 	"istio.io/istio/pkg/kube"
 	"istio.io/istio/pkg/security"
 	"istio.io/istio/pkg/spiffe"
@@ -63,7 +67,57 @@ var (
 	streamAllow = [][2]string{{"sa1", "ns1"}, {"sa1", "ns2"}, {"sa2", "ns2"}, {"sa1", "istio-system"}} // (sa, ns)
 )
 
+// Gateways and ReferenceGrants of the stream world: mergeGateways -> proxy.MergedGateway -> SDS filter run as one
+// piece on the real connection, with the real ReferenceGrant evaluation of the gateway controller.
+type worldServer struct{ cred, mode string }
+type worldGateway struct {
+	ns, saAnn string
+	servers   []worldServer
+}
+
+var (
+	streamGateways = []worldGateway{
+		{"ns1", "", []worldServer{{"kubernetes-gateway://ns1/a", "SIMPLE"}, {"kubernetes-gateway://ns2/a", "MUTUAL"}, {"kubernetes-gateway://istio-system/a", "SIMPLE"}}},
+		{"ns2", "sa1", []worldServer{{"kubernetes-gateway://ns2/a", "SIMPLE"}}},
+	}
+	streamGrants = []rgSpec{{srcNs: "ns2", from: "G", fromNs: "ns1", to: "S", name: "*"}, {srcNs: "istio-system", from: "H", fromNs: "ns1", to: "S", name: "*"}}
+)
+
+func streamConfigs() []config.Config {
+	var out []config.Config
+	port := 8443
+	for i, g := range streamGateways {
+		gw := &networking.Gateway{}
+		for _, sv := range g.servers {
+			port++
+			gw.Servers = append(gw.Servers, &networking.Server{
+				Port:  &networking.Port{Number: uint32(port), Protocol: "HTTPS", Name: "p" + strconv.Itoa(port)},
+				Hosts: []string{"h" + strconv.Itoa(port) + ".example.com"},
+				Tls:   &networking.ServerTLSSettings{Mode: tlsMode(sv.mode), CredentialName: sv.cred},
+			})
+		}
+		ann := map[string]string{}
+		if g.saAnn != "" {
+			ann[constants.InternalServiceAccount] = g.saAnn
+		}
+		out = append(out, config.Config{
+			Meta: config.Meta{GroupVersionKind: gvk.Gateway, Name: "gw" + strconv.Itoa(i), Namespace: g.ns, Annotations: ann},
+			Spec: gw,
+		})
+	}
+	return out
+}
+
 func writeStreamWorld(out *wire.Out) {
+	for _, g := range streamGateways {
+		out.Line("gw", g.ns, wire.Enc(g.saAnn), "~", "~")
+		for _, sv := range g.servers {
+			out.Line("srv", "1", "-", wire.Enc(sv.cred), sv.mode, "~")
+		}
+	}
+	for _, g := range streamGrants {
+		out.Line("rgrant", g.srcNs, g.from, g.fromNs, g.to, wire.Enc(g.name))
+	}
 	out.Line("cluster", streamCluster)
 	for _, s := range streamSecrets {
 		toks := []string{"secret", streamCluster, s.ns, s.name}
@@ -129,7 +183,11 @@ func (s *streamSUT) server() *txds.FakeDiscoveryServer {
 	for _, a := range streamAllow {
 		allowed.Insert(sa.MakeUsername(a[1], a[0]))
 	}
+	for i, g := range streamGrants {
+		objs = append(objs, g.object(i))
+	}
 	s.srv = txds.NewFakeDiscoveryServer(s.f, txds.FakeOptions{
+		Configs:           streamConfigs(),
 		KubernetesObjects: objs,
 		KubeClientModifier: func(c kube.Client) {
 			installSAR(c.Kube().(*fake.Clientset), &sarPolicy{allow: allowed})
@@ -150,10 +208,11 @@ type observed struct {
 }
 
 type baseStream struct {
-	ctx   context.Context
-	srv   *pxds.DiscoveryServer
-	obs   *observed
-	calls int
+	ctx    context.Context
+	srv    *pxds.DiscoveryServer
+	obs    *observed
+	calls  int
+	wantID string // proxy id (3rd part of the node id) of this op; ids are unique per op
 }
 
 func (b *baseStream) SetHeader(metadata.MD) error  { return nil }
@@ -169,7 +228,7 @@ func (b *baseStream) observeConnection() {
 	b.obs.mu.Lock()
 	defer b.obs.mu.Unlock()
 	for _, c := range b.srv.AllClients() {
-		if p := c.Proxy(); p != nil {
+		if p := c.Proxy(); p != nil && p.ID == b.wantID {
 			b.obs.seen = true
 			b.obs.cfgNs = p.ConfigNamespace
 			if p.VerifiedIdentity != nil {
@@ -302,6 +361,9 @@ func (s *streamSUT) run(o streamOp) streamResult {
 	node := &core.Node{Id: o.nodeID, Metadata: md}
 	obs := &observed{}
 	base := baseStream{ctx: peerCtx(o.peer), srv: srv.Discovery, obs: obs}
+	if parts := strings.Split(o.nodeID, "~"); len(parts) >= 3 {
+		base.wantID = parts[2]
+	}
 	done := make(chan error, 1)
 	go func() {
 		defer func() {
@@ -326,7 +388,7 @@ func (s *streamSUT) run(o streamOp) streamResult {
 		return streamResult{outcome: "timeout", obs: obs}
 	}
 	// the connection is removed asynchronously by the receive goroutine; wait so that the next op sees none
-	for i := 0; i < 2000 && len(srv.Discovery.AllClients()) > 0; i++ {
+	for i := 0; i < 20000 && len(srv.Discovery.AllClients()) > 0; i++ {
 		time.Sleep(time.Millisecond)
 	}
 	res := streamResult{obs: obs}
@@ -352,7 +414,7 @@ func (s *streamSUT) run(o streamOp) streamResult {
 
 func (s *streamSUT) apply(f []string) string {
 	switch f[0] {
-	case "case", "cluster", "secret", "allow", "start":
+	case "case", "cluster", "secret", "allow", "start", "gw", "srv", "rgrant":
 		return "ok"
 	case "stream":
 		r := s.run(decStream(f))
@@ -376,7 +438,9 @@ func genStream(seed uint64, n int, outp string) {
 	defer out.Close()
 	root := wire.NewRng(seed ^ 0xC1157)
 	nameU := []string{"kubernetes://a", "kubernetes://ns1/a", "kubernetes://ns2/a", "kubernetes://istio-system/a", "kubernetes://b-cacert",
-		"kubernetes://a-cacert", "kubernetes://ns1/b-cacert", "kubernetes-gateway://ns1/a", "invalid://x", "bogus", "kubernetes://ns2/a-cacert"}
+		"kubernetes://a-cacert", "kubernetes://ns1/b-cacert", "kubernetes-gateway://ns1/a", "invalid://x", "bogus", "kubernetes://ns2/a-cacert",
+		"kubernetes-gateway://ns1/a", "kubernetes-gateway://ns2/a", "kubernetes-gateway://ns2/a-cacert", "kubernetes-gateway://istio-system/a",
+		"kubernetes-gateway://ns2/a", "kubernetes-gateway://ns1/a/x"}
 	for c := 0; c < n; c++ {
 		r := root.Fork()
 		out.Line("case", strconv.Itoa(c), "stream")
@@ -405,7 +469,7 @@ func genStream(seed uint64, n int, outp string) {
 			if r.Chance(1, 12) {
 				ip = wire.Pick(r, ipPicks)
 			}
-			parts := []string{ty, ip.ip, "pod-" + strconv.Itoa(r.Intn(3)) + "." + cns, dom}
+			parts := []string{ty, ip.ip, "pod-" + strconv.Itoa(c) + "-" + strconv.Itoa(i) + "." + cns, dom}
 			if r.Chance(1, 25) {
 				parts = parts[:3]
 			}
@@ -450,6 +514,11 @@ func (s *streamSUT) oracleStream(f []string) string {
 	if r.outcome == "crash" || r.outcome == "timeout" {
 		return r.outcome
 	}
+	mustAuthenticate := o.xdsAuth && (o.peer == "tls" || (o.peer == "plain" && o.plaintextOK))
+	if mustAuthenticate && !o.anyAuthenticates && r.outcome != "unauthenticated" {
+		// XDS_AUTH on, TLS peer (or opted-in plaintext) and no authenticator succeeds: the stream must end Unauthenticated
+		return "failed-authentication-not-rejected outcome=" + wire.Enc(r.outcome)
+	}
 	if r.outcome != "accepted" {
 		return ""
 	}
@@ -458,7 +527,7 @@ func (s *streamSUT) oracleStream(f []string) string {
 	if !r.obs.seen {
 		return "connection-not-observed"
 	}
-	authenticated := o.xdsAuth && (o.peer == "tls" || (o.peer == "plain" && o.plaintextOK)) && o.anyAuthenticates
+	authenticated := mustAuthenticate && o.anyAuthenticates
 	v := r.obs.vid
 	if authenticated && o.flag {
 		if v == nil {
@@ -492,7 +561,37 @@ func (s *streamSUT) oracleStream(f []string) string {
 			return "payload-without-origin"
 		}
 		if org.kind == "S" && org.ns != v.Namespace {
-			return "secret-across-namespaces " + wire.Enc(sv.name) + " origin=" + wire.Enc(sv.cert)
+			// across namespaces only through a kubernetes-gateway:// name that a ReferenceGrant in the secret's namespace
+			// opens to Gateways of the verified namespace, requested by a gateway (router) proxy
+			base := strings.TrimSuffix(sv.name, "-cacert")
+			granted := strings.HasPrefix(o.nodeID, "router~") &&
+				(base == "kubernetes-gateway://"+org.ns+"/"+org.name || sv.name == "kubernetes-gateway://"+org.ns+"/"+org.name) &&
+				grantedBy(streamGrants, false, "S", org.ns, org.name, v.Namespace)
+			if !granted {
+				return "secret-across-namespaces " + wire.Enc(sv.name) + " origin=" + wire.Enc(sv.cert)
+			}
+			continue
+		}
+		if strings.HasPrefix(sv.name, "kubernetes-gateway://") {
+			// released through a verified reference: a Gateway of the verified namespace that expects this identity must
+			// reference exactly this name, and the secret is in the verified namespace or opened by a ReferenceGrant
+			ok := false
+			for _, g := range streamGateways {
+				if g.ns != v.Namespace || (g.saAnn != "" && g.saAnn != v.ServiceAccount) || !strings.HasPrefix(o.nodeID, "router~") {
+					continue
+				}
+				for _, ws := range g.servers {
+					if ws.cred == sv.name || (ws.mode == "MUTUAL" && ws.cred+"-cacert" == sv.name) {
+						if org.ns == v.Namespace || grantedBy(streamGrants, false, "S", org.ns, org.name, v.Namespace) {
+							ok = true
+						}
+					}
+				}
+			}
+			if !ok {
+				return "gateway-secret-without-verified-reference " + wire.Enc(sv.name)
+			}
+			continue
 		}
 		if sv.hasKey {
 			allowed := false
